@@ -172,7 +172,7 @@ pub fn replay(case: &Value) -> Option<String> {
 fn report(ctx: &Ctx, base: &Prepared, input: &[u8], chunk: usize, pre_mode: u8, msg: String, label: &str) {
     let case = json!({"cfg": base.cfg, "label": label, "input_hex": hex(input), "input_lossy": lossy(&input[..input.len().min(80)]), "chunk": chunk, "pre_mode": pre_mode});
     let c2 = case.clone();
-    ctx.violation(msg, case, &|| replay(&c2));
+    ctx.violation_determinism(msg, case, &|| replay(&c2));
 }
 
 pub fn run_check(ctx: &Ctx) -> i32 {
@@ -211,7 +211,7 @@ pub fn run_check(ctx: &Ctx) -> i32 {
                     if let Some((msg, _)) = sweep_case(Some(ctx), base, raw, c, 0, 8, 1 << 17) {
                         let case = json!({"cfg": base.cfg, "label": "soup", "input_hex": hex(raw), "input_lossy": lossy(raw), "chunk": c, "pre_mode": 0});
                         let (b2, r2) = (base.variant(|_| {}), raw.to_vec());
-                        ctx.violation(msg, case, &|| sweep_case(None, &b2, &r2, c, 0, 8, 1 << 17).map(|x| x.0));
+                        ctx.violation_determinism(msg, case, &|| sweep_case(None, &b2, &r2, c, 0, 8, 1 << 17).map(|x| x.0));
                     }
                 }
             }
